@@ -281,11 +281,18 @@ Proof.
     rewrite E. cbn [map_remap map_dels flat_map otab_sim]. rewrite rename_nil. eapply tab_sim_trans; [exact S|apply tab_sim_of_eqv, drop_nil_eqv].
   - destruct cs as [|c cs']; cbn [is_nil andb]; [destruct lim as [k|]|]; try (apply order_sound; assumption).
     rewrite E, order_nil. exact S.
-  - apply join_sound; assumption.
-  - apply concat_sound; assumption.
+  - apply (join_sound iw); assumption.
+  - apply (concat_sound iw); assumption.
 Qed.
 
 (* a prefix that does not evaluate (a table is missing) stays that way *)
+Lemma mk_extend_none iw fl e p ops a : sem_gen fl p e = None -> sem_gen fl (mk_extend iw p ops a) e = None.
+Proof. intros E. unfold mk_extend. cbn [sem_gen]. rewrite E. reflexivity. Qed.
+Lemma mk_select_none fl e p cs : sem_gen fl p e = None -> sem_gen fl (mk_select p cs) e = None.
+Proof.
+  intros E. assert (sem_gen fl (OSelectCols p cs) e = None) as G by (cbn [sem_gen]; rewrite E; reflexivity).
+  destruct p; try exact G. cbn [mk_select sem_gen] in *. destruct (sem_gen fl p e); [discriminate E|reflexivity].
+Qed.
 Lemma build_step_none iw fl e x p : sem_gen fl p e = None -> sem_gen fl (build_step iw p x) e = None.
 Proof.
   assert (forall bld node : op -> op,
@@ -296,18 +303,22 @@ Proof.
   { intros bld node B1 B2 N. apply (skip_ind bld node B1 B2 (fun p => sem_gen fl p e = None) (fun q => sem_gen fl q e = None)); [|exact N].
     intros s cs rev. apply none_under_order. }
   intros E. destruct x; cbn [build_step].
-  - destruct (is_nil ops); [exact E|]. revert E. induction p; intros E; cbn [build_extend]; try (unfold mk_extend; cbn [sem_gen]; rewrite E; reflexivity).
-    + cbn [sem_gen] in E. destruct (sem_gen fl p e) eqn:E0; [discriminate|].
-      destruct (merge_guard _ _ _); [|unfold mk_extend; cbn [sem_gen]; rewrite E0; reflexivity].
-      destruct (try_to_merge_ops _ _ _); unfold mk_extend; cbn [sem_gen]; rewrite E0; reflexivity.
-    + destruct limit; [unfold mk_extend; cbn [sem_gen]; rewrite E; reflexivity|]. apply IHp. eapply none_under_order, E.
+  - destruct (is_nil ops); [exact E|]. revert E.
+    induction p as [nm cs0|s IH o1 wd1 w1|s IH ops0 gb|s IH x|s IH cs1|s IH ds|s IH m|s IH m dels|s IH cs0 rev0 lim|pa IHa b IHb on_a on_b jt|pa IHa b IHb idc an bn];
+      intros E; cbn [build_extend]; try (apply mk_extend_none, E).
+    + assert (sem_gen fl s e = None) as E0 by (cbn [sem_gen] in E; destruct (sem_gen fl s e); [discriminate E|reflexivity]).
+      destruct (merge_guard _ _ _); [|apply mk_extend_none, E].
+      destruct (try_to_merge_ops _ _ _); [apply mk_extend_none, E0|apply mk_extend_none, E].
+    + destruct lim; [apply mk_extend_none, E|]. apply IH. eapply none_under_order, E.
   - revert E. apply (K (fun p => build_project p ops gb) (fun p => OProject p ops gb)); [reflexivity|skip_other|]. intros q Eq. cbn [sem_gen]. rewrite Eq. reflexivity.
   - revert E. apply (K (fun p => build_select_rows p e0) (fun p => OSelectRows p e0)); [reflexivity|skip_other|]. intros q Eq. cbn [sem_gen]. rewrite Eq. reflexivity.
-  - revert E. induction p; intros E; cbn [build_select_cols]; (destruct (as_tuple && eqb cs (declared_names _)); [exact E|]);
-      try (cbn [mk_select sem_gen]; rewrite E; reflexivity).
-    + apply IHp. cbn [sem_gen] in E. destruct (sem_gen fl p e); [discriminate|reflexivity].
-    + apply IHp. cbn [sem_gen] in E. destruct (sem_gen fl p e); [discriminate|reflexivity].
-    + destruct limit; [cbn [mk_select sem_gen]; rewrite E; reflexivity|]. apply IHp. eapply none_under_order, E.
+  - revert E.
+    induction p as [nm cs0|s IH o1 wd1 w1|s IH ops0 gb|s IH x|s IH cs1|s IH ds|s IH m|s IH m dels|s IH cs0 rev0 lim|pa IHa b IHb on_a on_b jt|pa IHa b IHb idc an bn];
+      intros E; cbn [build_select_cols]; (destruct (as_tuple && eqb cs (declared_names _)); [exact E|]);
+      try (apply mk_select_none, E).
+    + apply IH. cbn [sem_gen] in E. destruct (sem_gen fl s e); [discriminate|reflexivity].
+    + apply IH. cbn [sem_gen] in E. destruct (sem_gen fl s e); [discriminate|reflexivity].
+    + destruct lim; [apply mk_select_none, E|]. apply IH. eapply none_under_order, E.
   - destruct (is_nil cs); [exact E|]. revert E. apply (K (fun p => build_drop_cols p cs) (fun p => ODropCols p cs)); [reflexivity|skip_other|]. intros q Eq. cbn [sem_gen]. rewrite Eq. reflexivity.
   - destruct (is_nil m); [exact E|]. revert E. apply (K (fun p => build_rename p m) (fun p => ORename p m)); [reflexivity|skip_other|]. intros q Eq. cbn [sem_gen]. rewrite Eq. reflexivity.
   - destruct (is_nil m); [exact E|]. revert E. apply (K (fun p => build_map p m) (fun p => OMapCols p (map_remap m) (map_dels m))); [reflexivity|skip_other|]. intros q Eq. cbn [sem_gen]. rewrite Eq. reflexivity.
